@@ -350,7 +350,7 @@ func ruleC01R4(r *Run, cut *cutInfo) {
 				r.Check("chunk seq in "+fnName(lit.Fn), false, p.pos(lit.Alloc.Pos()), fnName(lit.Fn), "StreamChunk literal without SequenceNumber")
 				continue
 			}
-			leaves := p.Leaves(v, provOpts{StopAtCalls: false})
+			leaves := p.Leaves(v, provOpts{StopAtCalls: false, ParamDepth: 2}) // the chunk may be rebuilt in a helper that is given the key
 			fromNext := hasLeaf(leaves, "call:/iscp.sequenceNumberGenerator.Next") && hasLeaf(leaves, "field:"+fkSequence)
 			fromKey := false
 			for _, l := range leaves {
@@ -595,11 +595,50 @@ func ruleC01R7(r *Run, cut *cutInfo) {
 	if dpg == nil {
 		return
 	}
-	lits := literalsOf(conv, dpg)
-	nAlias, nFull := 0, 0
-	for _, lit := range lits {
+	// the values put into DataIDOrAlias: by literals of the converter itself, or by a constructor helper it calls
+	// (then the value is the argument the converter passes for the helper's parameter)
+	type idVal struct {
+		v   ssa.Value
+		pos token.Pos
+	}
+	var idVals []idVal
+	for _, lit := range literalsOf(conv, dpg) {
 		for _, st := range lit.All["DataIDOrAlias"] {
-			v := st.Val
+			idVals = append(idVals, idVal{st.Val, st.Pos()})
+		}
+	}
+	ptsFns := []*ssa.Function{conv}
+	allInstrs(conv, func(ins ssa.Instruction) {
+		c, ok := ins.(*ssa.Call)
+		if !ok {
+			return
+		}
+		cf := c.Call.StaticCallee()
+		if cf == nil || !p.Analysed(cf) || cf == conv {
+			return
+		}
+		for _, lit := range literalsOf(cf, dpg) {
+			ptsFns = append(ptsFns, cf)
+			for _, st := range lit.All["DataIDOrAlias"] {
+				v := st.Val
+				if mi, isMI := v.(*ssa.MakeInterface); isMI {
+					v = mi.X
+				}
+				if prm, isP := v.(*ssa.Parameter); isP {
+					for i, q := range cf.Params {
+						if q == prm && i < len(c.Call.Args) {
+							idVals = append(idVals, idVal{c.Call.Args[i], c.Pos()})
+						}
+					}
+				}
+			}
+		}
+	})
+	nAlias, nFull := 0, 0
+	{
+		for _, iv := range idVals {
+			st := iv
+			v := iv.v
 			leaves := p.Leaves(v, provOpts{})
 			isAlias := hasLeafPrefix(leaves, "elem:param:")
 			if isAlias {
@@ -631,25 +670,27 @@ func ruleC01R7(r *Run, cut *cutInfo) {
 					kl := p.Leaves(lk.Index, provOpts{})
 					okKey = hasLeaf(kl, "field:/iscp.DataPointGroup.DataID")
 				}
-				r.Check(cname+" alias from own id", okKey, p.pos(st.Pos()), cname, "the alias put into a group must be looked up with that group's own DataID")
+				r.Check(cname+" alias from own id", okKey, p.pos(st.pos), cname, "the alias put into a group must be looked up with that group's own DataID")
 			} else {
 				nFull++
 				okID := hasLeaf(leaves, "field:/iscp.DataPointGroup.DataID")
-				r.Check(cname+" full id from own group", okID, p.pos(st.Pos()), cname, "full-id form takes the group's own DataID: ["+joinLeaves(leaves)+"]")
+				r.Check(cname+" full id from own group", okID, p.pos(st.pos), cname, "full-id form takes the group's own DataID: ["+joinLeaves(leaves)+"]")
 			}
 		}
 	}
 	r.Check(cname+" both forms present", nAlias >= 1 && nFull >= 1, p.pos(conv.Pos()), cname, fmt.Sprintf("alias-form literals: %d, full-id-form literals: %d", nAlias, nFull))
 	// points appended from the same group: append(mdpg.DataPoints, dpg.DataPoints...)
 	okPts := false
-	allInstrs(conv, func(ins ssa.Instruction) {
-		if st, ok := ins.(*ssa.Store); ok && fieldKeyOfAddr(st.Addr) == "/message.DataPointGroup.DataPoints" {
-			l := p.Leaves(st.Val, provOpts{})
-			if hasLeaf(l, "field:/iscp.DataPointGroup.DataPoints") {
-				okPts = true
+	for _, f := range ptsFns {
+		allInstrs(f, func(ins ssa.Instruction) {
+			if st, ok := ins.(*ssa.Store); ok && fieldKeyOfAddr(st.Addr) == "/message.DataPointGroup.DataPoints" {
+				l := p.Leaves(st.Val, provOpts{ParamDepth: 1})
+				if hasLeaf(l, "field:/iscp.DataPointGroup.DataPoints") {
+					okPts = true
+				}
 			}
-		}
-	})
+		})
+	}
 	r.Check(cname+" points from the same group", okPts, p.pos(conv.Pos()), cname, "the group's points must come from DataPointGroup.DataPoints of the group being converted")
 }
 
@@ -751,7 +792,7 @@ func ruleFlushRendezvous(r *Run, id string) {
 			watches := false
 			for _, st := range sel.States {
 				if st.Dir == types.RecvOnly {
-					l := p.Leaves(st.Chan, provOpts{})
+					l := p.Leaves(st.Chan, provOpts{ParamDepth: 2}) // the hand-back may live in a helper that is given the channel
 					if hasLeaf(l, "recvfrom:/iscp.Upstream.explicitlyFlushCh") || hasLeaf(l, "select") {
 						watches = true
 					}
